@@ -1757,6 +1757,9 @@ class Exec:
             if ci.name == 'Logger' and fn.name == '__init__':
                 return None          # logging infrastructure: dropped like the logger calls
             qn = '%s:%s.%s' % (ci.modname, ci.name, fn.name)
+            h = self.unit.abstract.get('call:' + fn.name)
+            if h is not None:        # assumed (abstract) contract of an out-of-reach method, stated by the unit
+                return h(self, st, ([f.self_val] if f.self_val is not None else []) + args, kwargs, node)
             u = self.registry.get(qn)
             a = ([f.self_val] if f.self_val is not None else []) + args
             if u is None:
